@@ -358,6 +358,60 @@ theorem boundary_function_args {X : Type} (x : List X) (axis : Nat) (fixed : X) 
     (bdEvalArgs x axis fixed).reverse = bdGridArgs x.reverse axis fixed :=
   reverse_insertIdx x axis fixed h
 
+/-! ### the same laws on the model's list-level constructors (translate, scale) -/
+
+theorem bspTranslate_at (F : Func K) (off : List K) (i : Nat) (h : i < F.c.length) :
+    (F.bspTranslate off).at i = F.at i + bcast off i := by
+  simp [Func.bspTranslate, Func.at, List.getD_eq_getElem?_getD, h]
+
+theorem bspScale_at (F : Func K) (fac : List K) (i : Nat) (h : i < F.c.length) :
+    (F.bspScale fac).at i = F.at i * bcast fac i := by
+  simp [Func.bspScale, Func.at, List.getD_eq_getElem?_getD, h]
+
+theorem bcast_mul_add (v : List K) (nc k j : Nat) (h : v.length ∣ nc) : bcast v (k * nc + j) = bcast v j := by
+  unfold bcast
+  obtain ⟨t, rfl⟩ := h
+  rw [show k * (v.length * t) + j = v.length * (k * t) + j by ring, Nat.mul_add_mod]
+
+/-- **translate, on the model's list-level constructor**: `BSplineFunc.translate(offset)` evaluated by
+the grid route equals the original value plus the (broadcast) offset, at every node, for every sdim. -/
+theorem translate_bspline_model {X : Type} (F : Func K) (off : List K) (B : Nat → X → Info K) (ys : List X) (j : Nat)
+    (hoff : off.length ∣ F.ncomp) (hj : j < F.ncomp)
+    (hsz : size (rows B 0 F.dims ys (List.replicate F.dims.length 0)) * F.ncomp ≤ F.c.length)
+    (hpu : PU (rows B 0 F.dims ys (List.replicate F.dims.length 0))) :
+    (F.bspTranslate off).toSpl.gridVal B ys j = F.toSpl.gridVal B ys j + bcast off j := by
+  show contract (F.bspTranslate off).at F.ncomp j (rows B 0 F.dims ys (List.replicate F.dims.length 0)) 0
+     = contract F.at F.ncomp j (rows B 0 F.dims ys (List.replicate F.dims.length 0)) 0 + bcast off j
+  rw [contract_eq_nest, contract_eq_nest]
+  rw [nest_congr_bounded (leaf' := fun k => F.at (k * F.ncomp + j) + bcast off j)]
+  · rw [nest_add, nest_const _ _ _ hpu]
+  · intro k hk
+    simp only [Nat.zero_mul, Nat.zero_add]
+    have hlt : k * F.ncomp + j < F.c.length := by
+      calc k * F.ncomp + j < k * F.ncomp + F.ncomp := by omega
+        _ = (k + 1) * F.ncomp := by ring
+        _ ≤ _ := Nat.le_trans (Nat.mul_le_mul_right _ (by omega)) hsz
+    rw [bspTranslate_at F off _ hlt, bcast_mul_add off F.ncomp k j hoff]
+
+/-- **scale, on the model's list-level constructor** -/
+theorem scale_bspline_model {X : Type} (F : Func K) (fac : List K) (B : Nat → X → Info K) (ys : List X) (j : Nat)
+    (hfac : fac.length ∣ F.ncomp) (hj : j < F.ncomp)
+    (hsz : size (rows B 0 F.dims ys (List.replicate F.dims.length 0)) * F.ncomp ≤ F.c.length) :
+    (F.bspScale fac).toSpl.gridVal B ys j = F.toSpl.gridVal B ys j * bcast fac j := by
+  show contract (F.bspScale fac).at F.ncomp j (rows B 0 F.dims ys (List.replicate F.dims.length 0)) 0
+     = contract F.at F.ncomp j (rows B 0 F.dims ys (List.replicate F.dims.length 0)) 0 * bcast fac j
+  rw [contract_eq_nest, contract_eq_nest]
+  rw [nest_congr_bounded (leaf' := fun k => F.at (k * F.ncomp + j) * bcast fac j)]
+  · rw [nest_mul_right]
+  · intro k hk
+    simp only [Nat.zero_mul, Nat.zero_add]
+    have hlt : k * F.ncomp + j < F.c.length := by
+      calc k * F.ncomp + j < k * F.ncomp + F.ncomp := by omega
+        _ = (k + 1) * F.ncomp := by ring
+        _ ≤ _ := Nat.le_trans (Nat.mul_le_mul_right _ (by omega)) hsz
+    rw [bspScale_at F fac _ hlt, bcast_mul_add fac F.ncomp k j hfac]
+
+
 /-! ## 4. circular arcs lie on exact circles -/
 
 /-- **one rational quadratic segment.**  Control points (premultiplied, as coded)
